@@ -644,13 +644,19 @@ func checkEventLevels(senderLevel int64, oldPowerLevels, newPowerLevels PowerLev
 	// for sending the event with and without a "state_key". But if there is no entry
 	// for "my.custom.type it will use the state default when sent with a "state_key"
 	// and will use the event default when sent without.
-	const (
-		isStateEvent = false
-	)
+	// The entries of the events map are compared as they are: EventLevel() answers the
+	// invite level for m.room.third_party_invite whatever the map says, which is right
+	// for sending such an event but would hide every change of that entry here.
+	entryLevel := func(c PowerLevelContent, eventType string) int64 {
+		if level, ok := c.Events[eventType]; ok {
+			return level
+		}
+		return c.EventsDefault
+	}
 	for eventType := range newPowerLevels.Events {
 		levelChecks = append(levelChecks, levelPair{
-			oldPowerLevels.EventLevel(eventType, isStateEvent),
-			newPowerLevels.EventLevel(eventType, isStateEvent),
+			entryLevel(oldPowerLevels, eventType),
+			entryLevel(newPowerLevels, eventType),
 		})
 	}
 
@@ -659,8 +665,8 @@ func checkEventLevels(senderLevel int64, oldPowerLevels, newPowerLevels PowerLev
 	// the new levels. But it doesn't hurt to run the checks twice for the same level.
 	for eventType := range oldPowerLevels.Events {
 		levelChecks = append(levelChecks, levelPair{
-			oldPowerLevels.EventLevel(eventType, isStateEvent),
-			newPowerLevels.EventLevel(eventType, isStateEvent),
+			entryLevel(oldPowerLevels, eventType),
+			entryLevel(newPowerLevels, eventType),
 		})
 	}
 
